@@ -272,6 +272,16 @@ def is_var(node):
     return node.is_leaf() and node in __constants
 
 
+def is_declared_symbol(node):
+    """Return true if ``node`` is a symbol that is declared, defined or bound
+    in the current input (a constant, a function or a bound variable).
+
+    Requires that global information has been populated via
+    ``collect_information``.
+    """
+    return node.is_leaf() and node.data in __sort_lookup
+
+
 def is_piped_symbol(node):
     """Checks whether the ``node`` is a quoted symbol."""
     return node.is_leaf() and node[0] == '|' and node[-1] == '|'
